@@ -47,7 +47,7 @@ fn prop_cfg(id: &str, thorough: bool) -> Option<PropCfg> {
             probe: None,
             faultenum: false,
             attach: false,
-            runs: pick(8000, 80000),
+            runs: pick(16000, 80000),
             max_steps: 110,
             kinds: ALL_KINDS,
         },
@@ -57,7 +57,7 @@ fn prop_cfg(id: &str, thorough: bool) -> Option<PropCfg> {
             probe: Some(("buy_triples", 1, if t { 5 } else { 12 })),
             faultenum: false,
             attach: false,
-            runs: pick(6000, 60000),
+            runs: pick(12000, 60000),
             max_steps: 110,
             kinds: &["buy_listing"],
         },
@@ -67,7 +67,7 @@ fn prop_cfg(id: &str, thorough: bool) -> Option<PropCfg> {
             probe: None,
             faultenum: false,
             attach: false,
-            runs: pick(8000, 80000),
+            runs: pick(16000, 80000),
             max_steps: 120,
             kinds: &["buy_listing", "withdraw_purchased", "remove_bucket", "delete_listing"],
         },
@@ -77,7 +77,7 @@ fn prop_cfg(id: &str, thorough: bool) -> Option<PropCfg> {
             probe: Some(("nonowner", 1, if t { 6 } else { 20 })),
             faultenum: false,
             attach: false,
-            runs: pick(4000, 30000),
+            runs: pick(6000, 30000),
             max_steps: 100,
             kinds: ALL_KINDS,
         },
@@ -87,7 +87,7 @@ fn prop_cfg(id: &str, thorough: bool) -> Option<PropCfg> {
             probe: None,
             faultenum: false,
             attach: false,
-            runs: pick(8000, 80000),
+            runs: pick(16000, 80000),
             max_steps: 110,
             kinds: &[
                 "create_listing", "add_to_listing", "create_bucket", "add_to_bucket", "delete_listing",
@@ -100,7 +100,7 @@ fn prop_cfg(id: &str, thorough: bool) -> Option<PropCfg> {
             probe: None,
             faultenum: false,
             attach: false,
-            runs: pick(8000, 80000),
+            runs: pick(16000, 80000),
             max_steps: 110,
             kinds: &["buy_listing"],
         },
@@ -110,7 +110,7 @@ fn prop_cfg(id: &str, thorough: bool) -> Option<PropCfg> {
             probe: Some(("drain", 1, if t { 2 } else { 5 })),
             faultenum: false,
             attach: false,
-            runs: pick(6000, 50000),
+            runs: pick(12000, 50000),
             max_steps: 110,
             kinds: &["delete_listing", "remove_bucket", "withdraw_purchased"],
         },
@@ -120,7 +120,7 @@ fn prop_cfg(id: &str, thorough: bool) -> Option<PropCfg> {
             probe: None,
             faultenum: false,
             attach: false,
-            runs: pick(8000, 80000),
+            runs: pick(16000, 80000),
             max_steps: 110,
             kinds: &["finalize", "change_ask", "add_to_listing", "delete_listing", "buy_listing"],
         },
@@ -130,7 +130,7 @@ fn prop_cfg(id: &str, thorough: bool) -> Option<PropCfg> {
             probe: None,
             faultenum: false,
             attach: false,
-            runs: pick(8000, 80000),
+            runs: pick(16000, 80000),
             max_steps: 110,
             kinds: &["create_listing", "create_bucket"],
         },
@@ -140,7 +140,7 @@ fn prop_cfg(id: &str, thorough: bool) -> Option<PropCfg> {
             probe: None,
             faultenum: false,
             attach: false,
-            runs: pick(8000, 80000),
+            runs: pick(16000, 80000),
             max_steps: 120,
             kinds: &["buy_listing", "withdraw_purchased", "remove_bucket"],
         },
@@ -150,7 +150,7 @@ fn prop_cfg(id: &str, thorough: bool) -> Option<PropCfg> {
             probe: None,
             faultenum: false,
             attach: false,
-            runs: pick(4000, 40000),
+            runs: pick(8000, 40000),
             max_steps: 60,
             kinds: &["buy_listing"],
         },
@@ -160,7 +160,7 @@ fn prop_cfg(id: &str, thorough: bool) -> Option<PropCfg> {
             probe: None,
             faultenum: false,
             attach: false,
-            runs: pick(8000, 80000),
+            runs: pick(12000, 80000),
             max_steps: 110,
             kinds: &["create_listing", "add_to_listing", "create_bucket", "add_to_bucket", "change_ask", "buy_listing"],
         },
@@ -170,7 +170,7 @@ fn prop_cfg(id: &str, thorough: bool) -> Option<PropCfg> {
             probe: None,
             faultenum: false,
             attach: false,
-            runs: pick(8000, 80000),
+            runs: pick(16000, 80000),
             max_steps: 120,
             kinds: &["fee_cycle", "buy_listing"],
         },
@@ -180,7 +180,7 @@ fn prop_cfg(id: &str, thorough: bool) -> Option<PropCfg> {
             probe: Some(("registry_lookup", 1, if t { 3 } else { 6 })),
             faultenum: false,
             attach: false,
-            runs: pick(6000, 60000),
+            runs: pick(12000, 60000),
             max_steps: 110,
             kinds: &["register", "update", "remove"],
         },
@@ -190,7 +190,7 @@ fn prop_cfg(id: &str, thorough: bool) -> Option<PropCfg> {
             probe: None,
             faultenum: true,
             attach: false,
-            runs: pick(3000, 40000),
+            runs: pick(6000, 40000),
             max_steps: 90,
             kinds: NONE_KINDS,
         },
@@ -200,7 +200,7 @@ fn prop_cfg(id: &str, thorough: bool) -> Option<PropCfg> {
             probe: Some(("queries", 1, if t { 6 } else { 15 })),
             faultenum: false,
             attach: false,
-            runs: pick(700, 5000),
+            runs: pick(1000, 5000),
             max_steps: 100,
             kinds: NONE_KINDS,
         },
@@ -210,7 +210,7 @@ fn prop_cfg(id: &str, thorough: bool) -> Option<PropCfg> {
             probe: Some(("hostile", 1, if t { 6 } else { 15 })),
             faultenum: false,
             attach: false,
-            runs: pick(3000, 20000),
+            runs: pick(6000, 20000),
             max_steps: 90,
             kinds: NONE_KINDS,
         },
@@ -220,7 +220,7 @@ fn prop_cfg(id: &str, thorough: bool) -> Option<PropCfg> {
             probe: Some(("coins", 1, if t { 4 } else { 10 })),
             faultenum: false,
             attach: true,
-            runs: pick(5000, 50000),
+            runs: pick(10000, 50000),
             max_steps: 100,
             kinds: &[
                 "change_ask", "finalize", "delete_listing", "remove_bucket", "buy_listing", "withdraw_purchased",
